@@ -106,7 +106,7 @@ def build_item(item):
         base = fd.Normal(jnp.asarray(r.normal(0, 0.5, 2)), form(np.exp(r.normal(-0.4, 0.3))))
         if item["variant"] >= 3:
             base = fd.Laplace(jnp.asarray(r.normal(0, 0.5, 2)), form(np.exp(r.normal(-0.4, 0.3))))
-        bij = fb.Chain([fb.Affine(jnp.asarray(r.normal(0, 0.5, 2)), form(np.exp(r.normal(0.5, 0.3)) * (1 if item["variant"] % 2 else -1))), fb.LeakyTanh(2.0, (2,))])
+        bij = fb.Chain([fb.Affine(jnp.asarray(r.normal(0, 0.5, 2)), form(np.exp(r.normal(0.5, 0.3)))), fb.LeakyTanh(2.0, (2,))])
         return fd.Transformed(base, bij), None
     flow = ds.build_flow(item["flow"], item["dim"], item["cond"], item["invert"], item["factory_key"])
     rng = np.random.default_rng(np.random.PCG64(item["perturb_seed"]))
